@@ -897,10 +897,10 @@ Theorem split_clean sp s vl : split_locations sp (Some s) = Ok (Some vl) -> ~ In
   spec_locations sp (Some s) = Ok (version_locations (Some vl)).
 Proof. unfold split_locations, spec_locations. destruct s as [|a s]; [discriminate|]. set (s' := a :: s). clearbody s'.
   destruct sp; try discriminate; intros [= <-] Hne; unfold spec_split;
-    try (rewrite (split_char_clean _ _ Hne); apply version_locations_shape).
+    try (cbn [sep_char]; rewrite (split_char_clean _ _ Hne); destruct (map strip _); reflexivity).
   destruct (split_legacy_fields s') as [(p & ps & ps' & E1 & E2 & E3) _].
   change (fun c : N => N.eqb c 32 || N.eqb c 44) with is_legacy_delim.
   rewrite E2. rewrite E1 in Hne. rewrite E1.
   assert (Hp : p <> []) by (intro; subst; apply Hne; left; auto).
   destruct p as [|b p]; [tauto|]. cbn [filter nonempty]. rewrite <- E3. rewrite filter_nonempty_id by (intro; apply Hne; right; auto).
-  reflexivity. Show. Qed.
+  reflexivity. Qed.
